@@ -188,6 +188,7 @@ pub fn plan(prop: &str, tier: Tier) -> Option<Plan> {
             all_areas(&mut p, "C02", &all_hdr, &[0, 1, 2, 16], if q { 6 } else { 8 }, if q { 4 } else { 6 }, if q { 5 } else { 7 }, if q { 1 } else { 2 }, &multi_req, &multi_resp);
             stretched(&mut p, "C02", &all_hdr, &[9, 17, 33], if q { 4 } else { 5 }, if q { 3 } else { 4 }, &multi_req, &multi_resp, &BACKENDS);
             s2::add_prefix_sweep(&mut p, q, &BACKENDS);
+            s2::add_field_prefix_sweep(&mut p, q, &BACKENDS);
         }
         "C03" => {
             p.armed = O_FRAMING;
@@ -207,6 +208,7 @@ pub fn plan(prop: &str, tier: Tier) -> Option<Plan> {
             s2::add_template_mutations(&mut p, q, &BACKENDS);
             s2::add_lane_phase(&mut p, q, &BACKENDS);
             s2::add_pair_sweeps(&mut p, q, &BACKENDS, &[]);
+            s2::add_utf8_sweep(&mut p, q, &BACKENDS);
         }
         "C06" => {
             p.armed = O_LANG;
@@ -222,6 +224,7 @@ pub fn plan(prop: &str, tier: Tier) -> Option<Plan> {
             }
             s2::add_field_sweeps(&mut p, q, &BACKENDS, &["method", "target", "req-version"]);
             s2::add_pair_sweeps(&mut p, q, &BACKENDS, &["method", "target"]);
+            s2::add_utf8_sweep(&mut p, q, &BACKENDS);
             s2::add_templates_for(&mut p, q, &BACKENDS, "request");
         }
         "C07" => {
@@ -273,6 +276,7 @@ pub fn plan(prop: &str, tier: Tier) -> Option<Plan> {
             p.armed = O_PARTIAL;
             all_areas(&mut p, "C11", &all_hdr, &[1, 16], if q { 6 } else { 8 }, if q { 4 } else { 6 }, if q { 5 } else { 7 }, 0, &multi_req, &multi_resp);
             s2::add_prefix_sweep(&mut p, q, &[Backend::Native]);
+            s2::add_field_prefix_sweep(&mut p, q, &[Backend::Native]);
             s2::add_chunk_sweeps(&mut p, q);
         }
         "C14" => {
